@@ -7,6 +7,50 @@
 #include <string.h>
 #include <stdio.h>
 
+#ifdef NANOLANG_VERIF
+#define VREG_TOMB ((void *)1)
+static uint32_t vreg_hash(const void *p) { uint64_t x = (uint64_t)(uintptr_t)p; x ^= x >> 33; x *= 0xff51afd7ed558ccdULL; x ^= x >> 33; return (uint32_t)x; }
+static void vreg_insert_raw(VerifReg *r, void *obj) {
+    uint32_t i = vreg_hash(obj) & (r->cap - 1);
+    while (r->slots[i] && r->slots[i] != VREG_TOMB) i = (i + 1) & (r->cap - 1);
+    r->slots[i] = obj;
+}
+void verif_reg_add(VmHeap *heap, void *obj) {
+    if (!obj) return;
+    VerifReg *r = heap->verif_reg;
+    if (!r) { r = calloc(1, sizeof(*r)); r->cap = 1024; r->slots = calloc(r->cap, sizeof(void *)); heap->verif_reg = r; }
+    if ((r->count + 1) * 2 > r->cap) {
+        void **old = r->slots; uint32_t oc = r->cap;
+        r->cap *= 2; r->slots = calloc(r->cap, sizeof(void *));
+        for (uint32_t i = 0; i < oc; i++) if (old[i] && old[i] != VREG_TOMB) vreg_insert_raw(r, old[i]);
+        free(old);
+    }
+    vreg_insert_raw(r, obj); r->count++; r->n_reg++;
+}
+bool verif_reg_has(const VmHeap *heap, const void *obj) {
+    const VerifReg *r = heap->verif_reg;
+    if (!r || !obj) return false;
+    uint32_t i = vreg_hash(obj) & (r->cap - 1);
+    for (uint32_t n = 0; n < r->cap && r->slots[i]; n++, i = (i + 1) & (r->cap - 1))
+        if (r->slots[i] == obj) return true;
+    return false;
+}
+void verif_reg_del(VmHeap *heap, void *obj, const char *site) {
+    VerifReg *r = heap->verif_reg;
+    if (r && obj) {
+        uint32_t i = vreg_hash(obj) & (r->cap - 1);
+        for (uint32_t n = 0; n < r->cap && r->slots[i]; n++, i = (i + 1) & (r->cap - 1))
+            if (r->slots[i] == obj) { r->slots[i] = VREG_TOMB; r->count--; r->n_unreg++; return; }
+    }
+    if (r) { r->n_bad_unreg++; r->last_bad_site = site; }
+}
+#define VREG_ADD(heap, p) verif_reg_add((heap), (p))
+#define VREG_DEL(heap, p, s) verif_reg_del((heap), (p), (s))
+#else
+#define VREG_ADD(heap, p) ((void)0)
+#define VREG_DEL(heap, p, s) ((void)0)
+#endif
+
 /* ========================================================================
  * Heap Init / Destroy
  * ======================================================================== */
@@ -22,12 +66,16 @@ void vm_heap_destroy(VmHeap *heap) {
     for (uint32_t i = 0; i < heap->intern_count; i++) {
         if (heap->intern_table[i]) {
             /* Force free regardless of ref_count */
+            VREG_DEL(heap, heap->intern_table[i], "heap_destroy");
             free(heap->intern_table[i]);
         }
     }
     free(heap->intern_table);
     heap->intern_table = NULL;
     heap->intern_count = 0;
+#ifdef NANOLANG_VERIF
+    if (heap->verif_reg) { free(heap->verif_reg->slots); free(heap->verif_reg); heap->verif_reg = NULL; }
+#endif
 }
 
 /* ========================================================================
@@ -84,6 +132,7 @@ void vm_release(VmHeap *heap, NanoValue v) {
                     break;
                 }
             }
+            VREG_DEL(heap, s, "release_string");
             free(s);
             break;
         }
@@ -119,6 +168,7 @@ static void release_array(VmHeap *heap, VmArray *a) {
     }
     heap->stats.freed += sizeof(VmArray) + a->capacity * sizeof(NanoValue);
     heap->stats.num_objects--;
+    VREG_DEL(heap, a, "release_array");
     free(a->elements);
     free(a);
 }
@@ -138,6 +188,7 @@ static void release_struct(VmHeap *heap, VmStruct *s) {
     }
     heap->stats.freed += sizeof(VmStruct) + s->field_count * sizeof(NanoValue);
     heap->stats.num_objects--;
+    VREG_DEL(heap, s, "release_struct");
     free(s->fields);
     free(s);
 }
@@ -148,6 +199,7 @@ static void release_union(VmHeap *heap, VmUnion *u) {
     }
     heap->stats.freed += sizeof(VmUnion) + u->field_count * sizeof(NanoValue);
     heap->stats.num_objects--;
+    VREG_DEL(heap, u, "release_union");
     free(u->fields);
     free(u);
 }
@@ -159,6 +211,7 @@ static void release_tuple(VmHeap *heap, VmTuple *t) {
     size_t sz = sizeof(VmTuple) + t->count * sizeof(NanoValue);
     heap->stats.freed += sz;
     heap->stats.num_objects--;
+    VREG_DEL(heap, t, "release_tuple");
     free(t);
 }
 
@@ -169,6 +222,7 @@ static void release_closure(VmHeap *heap, VmClosure *c) {
     size_t sz = sizeof(VmClosure) + c->capture_count * sizeof(NanoValue);
     heap->stats.freed += sz;
     heap->stats.num_objects--;
+    VREG_DEL(heap, c, "release_closure");
     free(c);
 }
 
@@ -185,6 +239,7 @@ static void release_hashmap(VmHeap *heap, VmHashMap *m) {
     }
     heap->stats.freed += sizeof(VmHashMap) + m->bucket_count * sizeof(VmHMEntry *);
     heap->stats.num_objects--;
+    VREG_DEL(heap, m, "release_hashmap");
     free(m->buckets);
     free(m);
 }
@@ -219,6 +274,7 @@ VmString *vm_string_new(VmHeap *heap, const char *data, uint32_t length) {
 
     heap->stats.allocated += sz;
     heap->stats.num_objects++;
+    VREG_ADD(heap, s);
 
     /* Add to intern table */
     if (heap->intern_count >= heap->intern_capacity) {
@@ -322,6 +378,7 @@ VmArray *vm_array_new(VmHeap *heap, uint8_t elem_type, uint32_t initial_capacity
     a->elements = calloc(initial_capacity, sizeof(NanoValue));
     heap->stats.allocated += sizeof(VmArray) + initial_capacity * sizeof(NanoValue);
     heap->stats.num_objects++;
+    VREG_ADD(heap, a);
     return a;
 }
 
@@ -396,6 +453,7 @@ VmStruct *vm_struct_new(VmHeap *heap, uint32_t def_idx, uint32_t field_count) {
     s->fields = calloc(field_count, sizeof(NanoValue));
     heap->stats.allocated += sizeof(VmStruct) + field_count * sizeof(NanoValue);
     heap->stats.num_objects++;
+    VREG_ADD(heap, s);
     return s;
 }
 
@@ -414,6 +472,7 @@ VmUnion *vm_union_new(VmHeap *heap, uint32_t def_idx, uint16_t variant, uint16_t
     u->fields = calloc(field_count, sizeof(NanoValue));
     heap->stats.allocated += sizeof(VmUnion) + field_count * sizeof(NanoValue);
     heap->stats.num_objects++;
+    VREG_ADD(heap, u);
     return u;
 }
 
@@ -430,6 +489,7 @@ VmTuple *vm_tuple_new(VmHeap *heap, uint32_t count) {
     t->count = count;
     heap->stats.allocated += sz;
     heap->stats.num_objects++;
+    VREG_ADD(heap, t);
     return t;
 }
 
@@ -447,6 +507,7 @@ VmClosure *vm_closure_new(VmHeap *heap, uint32_t fn_idx, uint16_t capture_count)
     c->capture_count = capture_count;
     heap->stats.allocated += sz;
     heap->stats.num_objects++;
+    VREG_ADD(heap, c);
     return c;
 }
 
@@ -479,6 +540,7 @@ VmHashMap *vm_hashmap_new(VmHeap *heap, uint8_t key_type, uint8_t val_type) {
     m->buckets = calloc(HM_INITIAL_BUCKETS, sizeof(VmHMEntry *));
     heap->stats.allocated += sizeof(VmHashMap) + HM_INITIAL_BUCKETS * sizeof(VmHMEntry *);
     heap->stats.num_objects++;
+    VREG_ADD(heap, m);
     return m;
 }
 
